@@ -132,6 +132,9 @@ let hex_of_ocaml (s : String.t) : String.t =
 
 let hexc (s : Model.string) = hex_of_ocaml (ocaml_string s)
 
+let ocaml_string_of_hex (h : String.t) : String.t =
+  String.init (String.length h / 2) (fun i -> Char.chr (int_of_string ("0x" ^ String.sub h (2 * i) 2)))
+
 let key_order = ["Path"; "SchemaNotation"; "Type"; "Name"; "Format"; "QueryExample"; "Version";
                  "Title"; "ProtocolName"; "MethodName"; "TagName"; "OperationId"]
 
@@ -180,6 +183,52 @@ let cpanic_name = function
 let log_json l =
   jlist (List.map (fun (w, p) -> jlist [jstr (ocaml_string w); jstr (hex_of_bytes p)]) l)
 
+let hb = hex_of_bytes
+let jopt f = function Some x -> f x | None -> "null"
+let jbool b = if b then "true" else "false"
+let fmt_name = function FJson -> "json" | FPlain -> "plainString" | FBinary -> "binary"
+
+let inter_json = function
+  | IHttp h ->
+    Printf.sprintf "{\"k\":\"http\",\"id\":%s,\"method\":%s,\"path\":%s,\"annot\":%s,\"descr\":%s,\"tags\":%s,\"query\":%s,\"request\":%s,\"responses\":%s}"
+      (jstr (hb h.hi_id)) (jstr (hb h.hi_method)) (jstr (hb h.hi_path)) (jstr (hb h.hi_annot))
+      (jopt (fun d -> jstr (hb d)) h.hi_descr)
+      (jlist (List.map (fun t -> jstr (hb t)) h.hi_tags))
+      (jopt (fun (f, e) -> jlist [jstr (hb f); jstr (hb e)]) h.hi_query)
+      (jopt (fun r -> Printf.sprintf "{\"headers\":%s,\"body\":%s}" (jbool (r.rq_headers <> None))
+                (jopt (fun f -> jstr (fmt_name f)) r.rq_body)) h.hi_request)
+      (jlist (List.map (fun r -> jlist [jstr (hb r.rs_code); jstr (hb r.rs_annot); jbool (r.rs_headers <> None);
+                                         jopt (fun f -> jstr (fmt_name f)) r.rs_body]) h.hi_responses))
+  | IRpc r ->
+    Printf.sprintf "{\"k\":\"rpc\",\"id\":%s,\"method\":%s,\"path\":%s,\"annot\":%s,\"descr\":%s,\"tags\":%s,\"params\":%s,\"result\":%s}"
+      (jstr (hb r.ri_id)) (jstr (hb r.ri_method)) (jstr (hb r.ri_path)) (jstr (hb r.ri_annot))
+      (jopt (fun d -> jstr (hb d)) r.ri_descr)
+      (jlist (List.map (fun t -> jstr (hb t)) r.ri_tags)) (jbool r.ri_params) (jbool r.ri_result)
+
+let catalog_json (c : catalog) =
+  Printf.sprintf "{\"jsight\":%s,\"info\":%s,\"servers\":%s,\"tags\":%s,\"types\":%s,\"inters\":%s}"
+    (jstr (hb c.c_jsight))
+    (jopt (fun i -> Printf.sprintf "{\"title\":%s,\"version\":%s,\"descr\":%s}" (jstr (hb i.in_title)) (jstr (hb i.in_version))
+              (jopt (fun d -> jstr (hb d)) i.in_descr)) c.c_info)
+    (jlist (List.map (fun ((n, a), b) -> jlist [jstr (hb n); jstr (hb a); jstr (hb b)]) c.c_servers))
+    (jlist (List.map (fun t -> jlist [jstr (hb t.tg_name); jstr (hb t.tg_title); jopt (fun d -> jstr (hb d)) t.tg_descr;
+                                        jlist (List.map (fun i -> jstr (hb i)) t.tg_http);
+                                        jlist (List.map (fun i -> jstr (hb i)) t.tg_rpc)]) c.c_tags))
+    (jlist (List.map (fun ((n, a), b) -> jlist [jstr (hb n); jstr (hb a); jstr (hb b)]) c.c_types))
+    (jlist (List.map inter_json c.c_inters))
+
+let cat_json = function
+  | CatOk c -> Printf.sprintf "\"cat\":\"ok\",\"catalog\":%s" (catalog_json c)
+  | CatErr e -> Printf.sprintf "\"cat\":\"err\",\"caterr\":%s" (rerr_json e)
+  | CatPanic p -> Printf.sprintf "\"cat\":\"panic\",\"catpanic\":%s" (jstr (cpanic_name p))
+  | CatFuel -> "\"cat\":\"fuel\""
+
+let kind_index (name : String.t) : n =
+  let rec go i = function
+    | [] -> n_of_int 999
+    | k :: r -> if ocaml_string k = name then n_of_int i else go (i + 1) r in
+  go 0 dir_keywords
+
 let okind_of s = if s = "J" then OJSchema else OEnum
 
 let cmd_tree () =
@@ -189,13 +238,14 @@ let cmd_tree () =
       match List.filter (fun s -> s <> "") (String.split_on_char ' ' line) with
       | [] -> ()
       | id :: toks ->
-        let fs = ref [] and root = ref [] and ot = ref [] and et = ref [] and fuel = ref 200000 in
+        let fs = ref [] and root = ref [] and ot = ref [] and et = ref [] and fuel = ref 200000 and banned = ref [] in
         List.iter (fun t ->
             match String.split_on_char ':' t with
             | ["F"; n; c] -> fs := (bytes_of_hex n, FFile (bytes_of_hex c)) :: !fs
             | ["D"; n] -> fs := (bytes_of_hex n, FDir) :: !fs
             | ["R"; n] -> root := bytes_of_hex n
             | ["U"; n] -> fuel := int_of_string n
+            | ["B"; n] -> banned := kind_index (ocaml_string_of_hex n) :: !banned
             | ["O"; n; k; p; "L"; l] ->
               ot := (((bytes_of_hex n, okind_of k), z_of_int (int_of_string p)), OLen (z_of_int (int_of_string l))) :: !ot
             | ["O"; n; k; p; "E"; m; i] ->
@@ -206,15 +256,15 @@ let cmd_tree () =
                      (n_of_int (int_of_string m), z_of_int (int_of_string i))) :: !et
             | _ -> failwith ("bad token " ^ t)) toks;
         let rec nat_of_int i = if i <= 0 then O else S (nat_of_int (i - 1)) in
-        let r = tree_case (List.rev !fs) !root (List.rev !ot) (List.rev !et) (nat_of_int !fuel) in
+        let r = tree_case_b !banned (List.rev !fs) !root (List.rev !ot) (List.rev !et) (nat_of_int !fuel) in
         let out = match r with
           | TScanErr (e, log) -> Printf.sprintf "\"scan\":\"err\",\"err\":%s,\"log\":%s" (rerr_json e) (log_json log)
           | TScanPanic (p, log) -> Printf.sprintf "\"scan\":\"panic\",\"panic\":%s,\"log\":%s" (jstr (cpanic_name p)) (log_json log)
           | TFuel -> "\"scan\":\"fuel\""
           | TScanned (dirs, log, p2) ->
             let p2s = match p2 with
-              | T2Ok (roots, ms, ex, enums) ->
-                Printf.sprintf "\"p2\":\"ok\",\"roots\":%s,\"macros\":%s,\"expanded\":%s,\"enums\":%s"
+              | T2Ok (roots, ms, ex, enums, cat) ->
+                Printf.sprintf "\"p2\":\"ok\",%s,\"roots\":%s,\"macros\":%s,\"expanded\":%s,\"enums\":%s" (cat_json cat)
                   (jlist (List.map (fun d -> jstr (rdir_str d)) roots))
                   (jlist (List.map (fun m -> jstr (hex_of_bytes m)) ms))
                   (jlist (List.map (fun d -> jstr (rdir_str d)) ex))
